@@ -11,6 +11,8 @@ def angles(level=1, seed=0):
     a = [0.0, 1e-9, PI / 6, PI / 4, PI / 3, PI / 2, 2 * PI / 3, PI, 3 * PI / 2, 2 * PI, -PI / 3, PI / 3 + 2 * PI, 100.0]
     if level == 0:
         a = [0.0, PI / 3, PI / 2, PI, -PI / 3, 100.0]
+    # many turns away (identities and the error contract hold for every finite angle; an argument reduction done by hand drifts with the number of turns)
+    a += [-1e10, 1e15]
     return np.array(a)
 
 
